@@ -1496,14 +1496,15 @@ pub fn run(opts: &Opts) {
 	let mut span_labels: BTreeMap<String, usize> = BTreeMap::new();
 	for (i, sp) in super::c20::spanning_programs(&mut srng, if opts.thorough() { 2000 } else { 200 }).iter().enumerate() {
 		let kind = sp.label.split('.').next().unwrap_or("?");
-		if let Some(why) = sp.skip {
-			*span_labels.entry(format!("{kind}.excluded-{why}")).or_default() += 1;
-			continue;
-		}
 		*span_labels.entry(format!("{kind}.depth{}", sp.depth)).or_default() += 1;
 		for ind in [2u8, 0, 4] {
 			run.case(&sp.src, ind, &format!("span:{}:depth{}", sp.label, sp.depth), &[], ind == 2 && i % 16 == 0);
 		}
+	}
+	// every short block comment text (see the C20 engine), one indent setting each
+	for (i, sp) in super::c20::exhaustive_comment_programs(if opts.thorough() { 7 } else { 5 }).iter().enumerate() {
+		*span_labels.entry(sp.label.clone()).or_default() += 1;
+		run.case(&sp.src, [2u8, 0, 4][i / 3 % 3], &format!("span:{}", sp.label), &[], false);
 	}
 	let n = run.w.n;
 	let stats = run.stats.clone();
@@ -1513,7 +1514,7 @@ pub fn run(opts: &Opts) {
 			"engine": "c19", "cases": n, "programs": n_prog, "seeds": SEEDS.len(),
 			"stats": stats, "features": feats_total, "spanning": span_labels,
 			"bin": run.fmt_bin.as_ref().map(|p| p.display().to_string()),
-			"rule": "token-level typed generator over all constructs (depth 1..4) + hand-written seeds; each program plain x indent {tabs,2,4}, with random source line breaks, and decorated with block / // / # / mixed comments at every token boundary; plus the span family of the C20 engine (string literals, block comments and text blocks that span lines or contain tabs / CR / trailing blanks, at nesting depth 0..=3 x indent {tabs,2,4}); real format() -> re-parse with jrsonnet_ir_parser -> Lean validator",
+			"rule": "token-level typed generator over all constructs (depth 1..4) + hand-written seeds; each program plain x indent {tabs,2,4}, with random source line breaks, and decorated with block / // / # / mixed comments at every token boundary; plus the span family of the C20 engine (string literals, block and line comments and text blocks that span lines or contain tabs / CR / trailing blanks, at nesting depth 0..=3 x indent {tabs,2,4}; comments glued to every bracket kind and separator; every block comment text up to 5 (thorough: 7) characters over blank/tab/line break/`*`/`a`; no shape excluded); real format() -> re-parse with jrsonnet_ir_parser -> Lean validator",
 		}),
 		&opts.out,
 	);
